@@ -49,10 +49,24 @@ def _parse_fn(src):
     return f2
 
 
+def _workbook_var(fi) -> str:
+    """the local that holds the opened workbook (bound from load_workbook(...) / Workbook(...))"""
+    for n in ast.walk(fi.node):
+        if isinstance(n, ast.Assign) and len(n.targets) == 1 and isinstance(n.targets[0], ast.Name) and isinstance(n.value, ast.Call) and \
+                ast.unparse(n.value.func).split('.')[-1] in ('load_workbook', 'Workbook'):
+            return n.targets[0].id
+        if isinstance(n, ast.With):
+            for it in n.items:
+                if isinstance(it.context_expr, ast.Call) and ast.unparse(it.context_expr.func).split('.')[-1] == 'load_workbook' and \
+                        isinstance(it.optional_vars, ast.Name):
+                    return it.optional_vars.id
+    return 'wb'
+
+
 def _sheet_loop(fi):
     loops = [n for n in fi.node.body if isinstance(n, ast.For)]
     cand = [l for l in loops if 'worksheets' in ast.unparse(l.iter) or 'sheetnames' in ast.unparse(l.iter) or
-            ast.unparse(l.iter).endswith('wb')]
+            ast.unparse(l.iter).endswith(_workbook_var(fi))]
     if len(cand) != 1:
         raise AnalysisError('C18', f'expected one top-level loop over the worksheets in Excel.parse, found {len(cand)}')
     return cand[0]
@@ -61,10 +75,11 @@ def _sheet_loop(fi):
 def r1(run: Run, src):
     fields = cell_field_order(src)
     fi = _parse_fn(src)
-    env = {'wb': None}
+    wbv = _workbook_var(fi)
+    env = {wbv: None}
     rc = RoleChecker(fi.node, env, fields, qual=fi.qualname)
-    # wb.worksheets is the SHEET level of worksheet objects
-    rc.self_attrs['wb.worksheets'] = Level(SHEET, 'worksheet')
+    # <workbook>.worksheets is the SHEET level of worksheet objects
+    rc.self_attrs[f'{wbv}.worksheets'] = Level(SHEET, 'worksheet')
     rc.run()
     for c in rc.clashes:
         run.bad('C18.R1', 'Excel.parse', f'{c.kind}:{ast.unparse(c.node)[:40] if isinstance(c.node, ast.AST) else ""}', c.msg,
@@ -249,7 +264,7 @@ def r2(run: Run, src):
             stored_in_loop.setdefault(n.target.id, []).append(n)
     final_names = {x.id for v in entries.values() for x in ast.walk(v) if isinstance(x, ast.Name)}
     for name in sorted(final_names):
-        if name in ('wb', 'cls'):
+        if name in (_workbook_var(fi), 'cls'):
             continue
         reinit = [s for s in stored_in_loop.get(name, [])]
         run.check(not reinit, 'C18.R2', f'Excel.parse/workbook-accumulator `{name}`', 'reset-per-sheet',
